@@ -51,6 +51,7 @@ def run(prog, rep, tier='quick'):
         'the k x N row layout. NOT decided: Thomson\'s adaptive formula and its [0, 1/lambda] bound (numerical fixpoint).')
     rep.rule('eigenspectra', 'first result = fft(<tapers>.T * <data>, NFFT): shape (k, NFFT), s=1, depends on tapers and data')
     rep.rule('weights', 'per method: shape / dependence / exponent of the second result')
+    rep.rule('convergence', 'adapt: the two operands of the difference in the while test never denote the same storage (D8 memory identity), on entry and after a pass of the body')
     rep.rule('roles', 'third result depends on the eigenvalue source only; eigenspectra on the taper source, not the eigenvalues')
     rep.rule('mean', 'reduce over the taper axis; stored PSD real and non-negative')
     rep.rule('forwarding', 'pmtm parameters are the constructor arguments')
@@ -59,6 +60,7 @@ def run(prog, rep, tier='quick'):
     where = loc(f.mod, f.node)
     seen = set()
     n_f = 0
+    n_conv = 0
     K = lambda: C.symint('K', 1, 'k')
     for cplx in (False, True):
         for method in ('unity', 'eigen', 'adapt'):
@@ -125,6 +127,23 @@ def run(prog, rep, tier='quick'):
                     okw = wn is not None and deq(wn.deg['s'], 0) and (wn.cplx is False or wn.rv) and wn.shape is not None \
                         and len(wn.shape) == 2 and wn.shape[0] == kw['NFFT'].a and wn.shape[1] == K().a
                     why = 'real, scale-free, shape (NFFT, k)'
+                if method == 'adapt':
+                    # convergence test of the adaptive iteration: previous and new estimate are distinct buffers
+                    wl = [n for n in ast.walk(f.node) if isinstance(n, ast.While)]
+                    subs = [b for w_ in wl for b in ast.walk(w_.test) if isinstance(b, ast.BinOp) and isinstance(b.op, ast.Sub)]
+                    ids = set((normalise(b), b.lineno) for b in subs)
+                    same = [e_ for e_ in itp.events if e_[0] == 'self-diff' and (normalise(e_[1]), e_[1].lineno) in ids]
+                    n_conv += 1
+                    if not subs:
+                        rep.undecided('convergence', f.qname, ctx, 'no difference of two estimates in a while test of pmtm', where)
+                    elif same:
+                        rep.violation('convergence', f.qname, ctx, 'the convergence test `%s` subtracts a buffer from itself: after the first '
+                                      'pass both names are bound to the same storage, the difference is identically zero and the iteration '
+                                      'always stops after one pass (the weights are not those of the converged spectrum)'
+                                      % normalise(same[0][1]), loc(f.mod, same[0][1]))
+                    else:
+                        rep.proved('convergence', f.qname, ctx, 'the while test compares two distinct buffers (%d differences examined, '
+                                   'also on the state reached after one pass of the body)' % len(subs), where)
                 if okw:
                     rep.proved('weights', f.qname, ctx, why, where)
                 else:
@@ -232,4 +251,5 @@ def run(prog, rep, tier='quick'):
             else:
                 rep.proved('ffi', d.qname, 'multitap call', 'types, order, buffer sizes and layout match the C prototype', dw)
     rep.floor('pmtm contexts', n_f, 12)
+    rep.floor('convergence tests examined', n_conv, 4)
     rep.floor('class contexts', n_c, 12)
